@@ -68,6 +68,7 @@ func init() {
 }
 
 func runC37(c *Ctx) {
+	requireStateless(c, "M1-no-state-between-requests", "(private/ca/renewal.RequestVerifier).VerifyCMSSignedRenewalRequest")
 	rT := "(private/ca/renewal.RequestVerifier)"
 	if v := c.View(rT + ".VerifyCMSSignedRenewalRequest"); v != nil {
 		e := NewE1(c, v.Fn)
